@@ -48,6 +48,14 @@ impl Session {
 
     /// Execute a SQL statement
     pub fn execute(&mut self, sql: &str) -> QueryRunnerResult<QueryResult> {
+        // A transaction that was aborted from outside (VACUUM aborts every open one) must not
+        // go on writing: its id is forgotten afterwards and whatever it wrote would be taken
+        // for committed work.
+        if !self.ctx.is_active() {
+            return Err(QueryError::Runtime(RuntimeError::Other(
+                "the transaction of this session has been aborted".to_string(),
+            )));
+        }
         self.execute_async(sql.to_string())
     }
 
